@@ -319,6 +319,12 @@ impl<M: Manager, W: From<Object<M>>> Pool<M, W> {
     ///
     /// See [`PoolError`] for details.
     pub async fn timeout_get(&self, timeouts: &Timeouts) -> Result<W, PoolError<M::Error>> {
+        // A recycle timeout cannot be applied without a runtime. Report this
+        // up front instead of discarding idle objects as if recycling failed.
+        if timeouts.recycle.is_some() && self.inner.runtime.is_none() {
+            return Err(PoolError::NoRuntimeSpecified);
+        }
+
         let _ = self.inner.users.fetch_add(1, Ordering::Relaxed);
         let users_guard = DropGuard(|| {
             let _ = self.inner.users.fetch_sub(1, Ordering::Relaxed);
